@@ -132,7 +132,9 @@ def kw_verbatim():
     import einx
     out = []
     values = [3, 2.5, True, "mode", None, (1, 2), np.float32(2.0), np.int64(7), -1, 0, False, 1, 0.0,
-              [1, 2], (1, [2]), {"k": [1]}, np.asarray([1, 2]), {"k": 1}]
+              [1, 2], (1, [2]), {"k": [1]}, np.asarray([1, 2]), {"k": 1},
+              # values that have to survive being printed into the generated source (repaired by fix 5d7ec05)
+              "a\\nb", 'q"uote', "new\nline", "tab\there", "it's", "", "\\", "uni\u00e9\U0001F600", float("inf"), -float("inf"), float("nan"), (1, "x\\t"), 1e308, 5e-324, 2 ** 70, -0.0]
     x = np.arange(6.0).reshape(2, 3)
     for adapter in ("reduce", "elementwise"):
         got = {}
@@ -154,7 +156,9 @@ def kw_verbatim():
                 out.append(("exception", d, f"{o[1:]}"))
                 continue
             r = got.get("opt", "<not called>")
-            same = type(r) is type(v) and (np.array_equal(r, v) if isinstance(v, np.ndarray) else r == v)
+            same = type(r) is type(v) and (np.array_equal(r, v) if isinstance(v, np.ndarray) else (r == v or (isinstance(v, float) and v != v and r != r)))
+            if same and isinstance(v, float) and v == 0:
+                same = str(r) == str(v)  # sign of zero
             if same:
                 out.append(("ok", d, None))
             else:
